@@ -240,7 +240,7 @@ theorem C13_no_panic (c : Cfg) (F : List UInt8) (hc : 0 < c.chunk) (hsz : F.leng
 /-- The oracle the model driver executes in the correspondence run (`C13.src g`: the harness's in-memory
 source for the file line `g`, failing on the bad range) satisfies the source hypotheses of the theorems above
 for the generated file `F = C13.fileSlice g 0 g.len`; so for every generated case with `len < 2^64` the
-theorems apply to exactly the model run that is compared with the real code. -/
+results above apply to exactly the model run that is compared with the real code. -/
 theorem C13_driver_source (g : C13.Gen) :
     (C13.fileSlice g 0 g.len).length = g.len ∧ Faithful (C13.fileSlice g 0 g.len) (C13.src g) ∧
     (g.badHi = 0 → SourceOk (C13.fileSlice g 0 g.len) (C13.src g)) :=
